@@ -27,9 +27,10 @@ func init() {
 	csScenarios["writeabort-ctx-writer"] = func() zzmc.Scenario { return c13writeAbort(true, 0, false, true) }
 	csScenarios["writeabort-arming-fails"] = func() zzmc.Scenario { return c13writeAbort(true, 1, false, false) }
 	csScenarios["writeabort-clearing-fails"] = func() zzmc.Scenario { return c13writeAbort(true, -1, false, false) }
+	csScenarios["refcount-udp-addrport"] = func() zzmc.Scenario { return c13refcount(true) }
 	csScenarios["writeabort-addrport"] = func() zzmc.Scenario { return c13writeAbort(true, 0, false, false, true) }
 	csScenarios["writeabort-addrport-ctx-writer"] = func() zzmc.Scenario { return c13writeAbort(true, 0, false, true, true) }
-	csScenarios["refcount-udp"] = c13refcount
+	csScenarios["refcount-udp"] = func() zzmc.Scenario { return c13refcount() }
 }
 
 // fakeBottom is the shared socket under the mux: WriteTo either returns at once or blocks until a write
@@ -264,7 +265,9 @@ func c13writeAbort(block bool, failNth int, twoAborts, ctxWriter bool, addrPort 
 }
 
 // c13refcount: two handles on one per-ufrag connection, a sibling ufrag on the same mux.
-func c13refcount() zzmc.Scenario {
+func c13refcount(addrPort ...bool) zzmc.Scenario {
+	ap := len(addrPort) > 0 && addrPort[0]
+
 	return zzmc.Scenario{
 		Name:     "refcount-udp",
 		Focus:    []string{"udp_mux.go", "udp_muxed_conn.go", "shared_packet_conn.go"},
@@ -272,7 +275,11 @@ func c13refcount() zzmc.Scenario {
 		Setup: func(s *zzmc.Sched) func(string) (string, string) {
 			fb := newFakeBottom(false)
 			fb.wildcard = true
-			m := NewUDPMuxDefault(UDPMuxParams{UDPConn: fb, Logger: nopLogger{}, Net: vNet{}})
+			var sock net.PacketConn = fb
+			if ap { // the socket offers AddrPort I/O: the handles are then the AddrPort flavour of the shared wrapper
+				sock = fakeBottomAP{fb}
+			}
+			m := NewUDPMuxDefault(UDPMuxParams{UDPConn: sock, Logger: nopLogger{}, Net: vNet{}})
 			h1, err := m.GetConn("u1", fb.LocalAddr())
 			if err != nil {
 				panic(err)
@@ -286,7 +293,7 @@ func c13refcount() zzmc.Scenario {
 			}
 			under6 := m.connsIPv6["u1"]
 			under := m.connsIPv4["u1"]
-			dst := &net.UDPAddr{IP: net.ParseIP("10.0.0.9"), Port: 9}
+			dst := &net.UDPAddr{IP: net.ParseIP("10.0.0.9").To4(), Port: 9}
 			fail := ""
 			h1closed, h2closed, h2closing := false, false, false
 			var r1err, r2err, w2err, c1err, c1berr error
@@ -317,6 +324,16 @@ func c13refcount() zzmc.Scenario {
 				}
 				if _, _, err := h1.ReadFrom(make([]byte, 8)); err == nil {
 					fail += "READ-ON-CLOSED-HANDLE-SUCCEEDED "
+				}
+				if apc, ok := h1.(AddrPortReaderWriter); ok {
+					if _, err := apc.WriteToAddrPort([]byte("x"), dst.AddrPort()); err == nil {
+						fail += "ADDRPORT-WRITE-ON-CLOSED-HANDLE-SUCCEEDED "
+					}
+					if _, _, err := apc.ReadFromAddrPort(make([]byte, 8)); err == nil {
+						fail += "ADDRPORT-READ-ON-CLOSED-HANDLE-SUCCEEDED "
+					}
+				} else if ap {
+					fail += "HANDLE-OVER-AN-ADDRPORT-SOCKET-LACKS-ADDRPORT-IO "
 				}
 				c1berr = h1.Close() // closing twice must not release a second reference
 				if !h2closed && underClosed() {
@@ -419,6 +436,7 @@ func checkC13(c *runCtx) {
 	csExplore(c, "writeabort-arming-fails", b, dl, nil)
 	csExplore(c, "writeabort-clearing-fails", b, dl, s14)
 	csExplore(c, "writeabort-addrport", b, dl, nil)
-	csExplore(c, "writeabort-addrport-ctx-writer", b, dl, nil)
+	csExplore(c, "writeabort-addrport-ctx-writer", b-1, dl, nil)
 	csExplore(c, "refcount-udp", b, dl, nil)
+	csExplore(c, "refcount-udp-addrport", b-1, dl, nil)
 }
